@@ -63,6 +63,8 @@ pub struct Seen {
     pub peer_addr: Option<String>,
     pub conn_tag: Option<usize>,
     pub payload_dropped_step: Option<u64>,
+    /// bytes read when bodies are only counted
+    pub body_len_only: usize,
 }
 
 #[derive(Clone, Debug, Default)]
@@ -82,6 +84,14 @@ pub struct ConnRec {
     pub expect_calls: u32,
     pub result: Option<(Result<(), String>, u64, u64)>,
     pub aborted: bool,
+    /// request-body bytes handed to handlers / reader tasks so far
+    pub handed: usize,
+    /// head bytes of the requests dispatched so far
+    pub heads: usize,
+    /// response-body bytes pulled from bodies so far
+    pub pulled_total: usize,
+    /// do not keep request-body bytes (large-volume scenarios): only count them
+    pub count_only: bool,
 }
 
 pub struct Shared {
@@ -93,6 +103,7 @@ pub struct Shared {
     pub spawn_q: RefCell<Vec<(String, Pin<Box<dyn Future<Output = ()>>>)>>,
     pub stats: RefCell<Stats>,
     pub expect: ExpectPlan,
+    pub layouts: Vec<Vec<(usize, usize, usize)>>,
 }
 
 pub struct ConnTag(pub usize);
@@ -185,6 +196,10 @@ impl ChunkSource {
         self.off += n;
         self.next += 1;
         self.rec(|r| r.pulled.push(n));
+        {
+            let c = self.sh.conns.borrow()[self.conn].clone();
+            c.borrow_mut().pulled_total += n;
+        }
         if n == 0 {
             bump(&mut self.sh.stats.borrow_mut(), "body_empty_chunk");
         }
@@ -256,10 +271,12 @@ impl Stream for ChanStream {
         let mut ch = self.ch.borrow_mut();
         let c = self.sh.conns.borrow()[self.conn].clone();
         let mut c = c.borrow_mut();
+        let c = &mut *c;
         let rec = &mut c.bodies[self.idx];
         rec.polls += 1;
         if let Some(b) = ch.q.pop_front() {
             rec.pulled.push(b.len());
+            c.pulled_total += b.len();
             return Poll::Ready(Some(Ok(b)));
         }
         if ch.closed {
@@ -328,10 +345,22 @@ async fn read_payload(sh: Rc<Shared>, conn: usize, idx: usize, p: &mut actix_htt
         });
         match next_chunk(p).await {
             Some(Ok(b)) => {
-                with_seen(&sh, conn, idx, |s| {
-                    s.body.extend_from_slice(&b);
-                    s.chunks.push(b.len());
-                });
+                {
+                    let c = sh.conns.borrow()[conn].clone();
+                    let mut c = c.borrow_mut();
+                    // counted in wire bytes (chunk framing included) so that it can be compared
+                    // with what was taken from the socket
+                    let (wire, body) = sh.layouts[conn].get(idx).map(|l| (l.2 - l.1, sh.scripts[conn].reqs.get(idx).map(|r| r.body_len).unwrap_or(0))).unwrap_or((0, 0));
+                    c.handed += if body > 0 && wire >= body { (b.len() as u128 * wire as u128 / body as u128) as usize } else { b.len() };
+                    let count_only = c.count_only;
+                    let s = &mut c.seen[idx];
+                    if count_only {
+                        s.body_len_only += b.len();
+                    } else {
+                        s.body.extend_from_slice(&b);
+                        s.chunks.push(b.len());
+                    }
+                }
                 n += 1;
                 if slow {
                     YieldN(1).await;
@@ -454,6 +483,7 @@ async fn run_prog(sh: Rc<Shared>, conn: usize, idx: usize, mut req: Request, pro
                 c.bodies[idx].created = true;
                 c.bodies[idx].pulled.push(*n);
                 c.bodies[idx].ended = true;
+                c.pulled_total += *n;
             }
             b.message_body(Bytes::from(resp_bytes(idx, 0, *n))).unwrap().map_into_boxed_body()
         }
@@ -602,6 +632,7 @@ pub struct ConnOut {
     pub write_after_shutdown: bool,
     pub started_ms: u64,
     pub flush_calls: u64,
+    pub flush_ready_steps: Vec<u64>,
     /// bytes accepted by a buffering transport but never flushed to the wire
     pub lost_staged: Vec<u8>,
 }
@@ -670,6 +701,7 @@ async fn run_h1_inner(sc: H1Scenario, tape: Tape, narr: bool) -> H1Out {
         spawn_q: RefCell::new(Vec::new()),
         stats: RefCell::new(Stats::new()),
         expect: sc.cfg.expect,
+        layouts: sc.conns.iter().map(|c| c.layout()).collect(),
     });
 
     // sockets
@@ -680,7 +712,10 @@ async fn run_h1_inner(sc: H1Scenario, tape: Tape, narr: bool) -> H1Out {
         se.st.borrow_mut().id = i;
         server_ends.push(Some(se));
         sh.socks.borrow_mut().push(ss);
-        sh.conns.borrow_mut().push(Rc::new(RefCell::new(ConnRec::default())));
+        sh.conns.borrow_mut().push(Rc::new(RefCell::new(ConnRec {
+            count_only: sc.note.starts_with("c05"),
+            ..Default::default()
+        })));
         cstate.push(ConnState {
             stream: cs.stream(),
             next_seg: 0,
@@ -736,7 +771,10 @@ async fn run_h1_inner(sc: H1Scenario, tape: Tape, narr: bool) -> H1Out {
                 peer_addr: head.peer_addr.map(|a| a.to_string()),
                 conn_tag,
                 payload_dropped_step: None,
+                body_len_only: 0,
             });
+            // size of this head on the wire, reconstructed from the parsed request
+            c.heads += head.method.as_str().len() + 1 + head.uri.to_string().len() + 1 + 8 + 2 + head.headers.iter().map(|(n, v)| n.as_str().len() + 2 + v.as_bytes().len() + 2).sum::<usize>() + 2;
             while c.bodies.len() <= idx {
                 c.bodies.push(BodyRec::default());
             }
@@ -803,7 +841,6 @@ async fn run_h1_inner(sc: H1Scenario, tape: Tape, narr: bool) -> H1Out {
     let mut max_ra: Vec<i64> = vec![0; sc.conns.len()];
     let mut max_wa: Vec<i64> = vec![0; sc.conns.len()];
     let mut started_ms: Vec<u64> = vec![0; sc.conns.len()];
-    let layouts: Vec<Vec<(usize, usize, usize)>> = sc.conns.iter().map(|c| c.layout()).collect();
     let max_chunk: Vec<usize> = sc
         .conns
         .iter()
@@ -870,6 +907,7 @@ async fn run_h1_inner(sc: H1Scenario, tape: Tape, narr: bool) -> H1Out {
                             None
                         }
                     }
+                    Wait::InboxBelow(n) => Some(sock.inbox.len() < n as usize),
                     Wait::Responses(n) => {
                         let (f, _) = resp::count_responses(&sock.out, &st.head_flags);
                         if f >= n {
@@ -945,6 +983,20 @@ async fn run_h1_inner(sc: H1Scenario, tape: Tape, narr: bool) -> H1Out {
             if signal_fired.is_none() && due(t, &mut next_due) {
                 acts.push((Act::Signal, sc.sched.w_other));
             }
+        }
+        // A task that keeps waking itself without any observable progress would pin virtual time
+        // (time only advances when nothing is runnable). A real clock advances regardless, so after
+        // a long streak the simulator lets time jump to the next environment event.
+        if !acts.is_empty() && next_due.is_some() && acts.iter().all(|(a, _)| matches!(a, Act::Run(t) if ex.tasks[*t].self_wake_streak >= 200)) {
+            bump(&mut sh.stats.borrow_mut(), "busy_spin_time_skip");
+            let t = next_due.unwrap();
+            tokio::time::sleep_until(ex.start_instant() + Duration::from_millis(t)).await;
+            for (a, _) in acts.iter() {
+                if let Act::Run(t) = a {
+                    ex.tasks[*t].self_wake_streak = 0;
+                }
+            }
+            continue;
         }
         if acts.is_empty() {
             if ex.unfinished().is_empty() && next_due.is_none() {
@@ -1117,19 +1169,11 @@ async fn run_h1_inner(sc: H1Scenario, tape: Tape, narr: bool) -> H1Out {
             fnv(&mut trace_hash, sock.read_total as u64);
             fnv(&mut trace_hash, rec.seen.len() as u64);
             // C05 accounting
-            let handed: usize = rec.seen.iter().map(|s| s.body.len()).sum();
-            let heads: usize = rec
-                .seen
-                .iter()
-                .enumerate()
-                .map(|(k, _)| layouts[i].get(k).map(|l| l.1 - l.0).unwrap_or(0))
-                .sum();
-            let ra = sock.read_total as i64 - handed as i64 - heads as i64;
+            let ra = sock.read_total as i64 - rec.handed as i64 - rec.heads as i64;
             if ra > max_ra[i] {
                 max_ra[i] = ra;
             }
-            let pulled: usize = rec.bodies.iter().map(|b| b.pulled.iter().sum::<usize>()).sum();
-            let wa = pulled as i64 - sock.out.len() as i64;
+            let wa = rec.pulled_total as i64 - (sock.out.len() + sock.staged.len()) as i64;
             if wa > max_wa[i] {
                 max_wa[i] = wa;
             }
@@ -1221,6 +1265,7 @@ async fn run_h1_inner(sc: H1Scenario, tape: Tape, narr: bool) -> H1Out {
             write_after_shutdown: sock.write_after_shutdown,
             started_ms: started_ms[i],
             flush_calls: sock.flush_calls,
+            flush_ready_steps: sock.flush_ready_steps.clone(),
             lost_staged: sock.staged.clone(),
         });
     }
